@@ -6,6 +6,16 @@ CLAIMED = {
  "C01": ("exploration", "Engine H", "seeded history simulation with rejected-operation injection; refinement against a set+map reference model after every operation",
          "Every public mutator of Hypergraph (valid and to-be-rejected calls, batches with a bad member at a sampled position, copy() forks, clear) is driven by a seeded single-caller scheduler over up to 4 live objects; after every operation the complete public observation (all listings x size/order 1..6 x up_to, weights, incidence, neighbours, degrees, statistics, membership, metadata) of every live object is compared with a set+map reference model.  Sampling, not proof; DESIGN.md 4, 7/C01.",
          "Reference semantics = DESIGN.md Appendix A; ambiguous steps (4.5) are never generated; universe <= 7 labels, history <= 60/150 ops; single caller, no threads."),
+
+ "C02": ("exploration", "Engine H", "seeded history simulation with rejected-operation injection; refinement against a (source set, target set)->(weight, metadata) reference model after every operation",
+         "Same machinery as C01 on DirectedHypergraph: role-specific listings (source/target hyperedges per node and filter), in/out degree, neighbours as nodes, check_node as a bool for present and absent labels, node metadata compared after every hyperedge insertion.  Sampling, not proof.",
+         "Reference semantics = DESIGN.md Appendix A; only keep_edges=False removals (quantifier); ambiguous steps (4.5) never generated; universe <= 7, history <= 60/150."),
+ "C03": ("exploration", "Engine H", "seeded history simulation with rejected operations and illegal times; refinement against a (time, node set) reference model; windows, snapshots and aggregate(w) checked as derivations inside histories",
+         "Same machinery on TemporalHypergraph; every window (a,b) with 0<=a<=b<=7 is part of the observation after every step; aggregate(w), w in 1..8 and subhypergraph(window) are derivation steps compared (full observation of every returned Hypergraph) with the windows of the model, followed by re-observation of the source.  Sampling, not proof.",
+         "Metadata of aggregated/snapshot hypergraphs and aggregate() on a hypergraph without hyperedges are not asserted (statement silent); snapshot node sets not asserted."),
+ "C04": ("exploration", "Engine H", "seeded history simulation with rejected operations; refinement against a (node set, layer) reference model; aggregation and overlap checked as derivations inside histories",
+         "Same machinery on MultiplexHypergraph with the operation list of its quantifier; weighted batches placing one node set in two layers are valid operations; aggregated_hypergraph() (full observation) and edge_overlap of every node set in use and one absent are derivation steps; the source, including its hypergraph metadata, is re-observed afterwards.  Sampling, not proof.",
+         "Metadata of the aggregated hypergraph is not asserted; layers in use checked as: superset of layers with a record, subset of layers ever inserted."),
 }
 NA = {
  "C08": "pure function of the hypergraph value (degrees, components): no history, I/O, random draw, clock or interleaving for a simulator to own (DESIGN.md 8)",
